@@ -5,6 +5,9 @@
 import Knx.Gen.Helpers
 import Knx.Address
 import Knx.Text
+import Knx.DptText
+import Knx.Gen.Dpt
+import Knx.Registry
 
 open Knx.Gen
 
@@ -17,6 +20,52 @@ def hexOfStr (s : Knx.Addr.Str) : String := Knx.Text.hex (s.map (BitVec.ofNat 8)
 def showAddr : Option (BitVec 16) → String
   | some a => "ok " ++ toString a.toNat
   | none => "err"
+
+def shapeOf (ty : String) : Option Knx.Dpt.Shape := (Knx.Gen.shapes.find? (·.1 == ty)).map (·.2)
+
+/-- type name registered under a key (what `Produce` would instantiate) -/
+def typeOfKey (k : String) : Option String := (Knx.Gen.registry.find? (·.1 == k)).map (·.2.2.1)
+
+def runDpt (op : String) (args : List String) : Option String :=
+  match op, args with
+  | "dpu", [ty, h] => do
+    let s ← shapeOf ty
+    let data ← Knx.Text.unhex h
+    match Knx.Dpt.decode s data with
+    | .ok v => pure (" ".intercalate ("ok" :: v.toks))
+    | .err => pure "err"
+    | .panic => pure "panic"
+    | .hang => pure "hang"
+  | "dpp", ty :: ts => do
+    let s ← shapeOf ty
+    let v ← Knx.Dpt.parseVal s ts
+    match Knx.Dpt.encode s v with
+    | some b => pure ("ok " ++ Knx.Text.hex b)
+    | none => pure "badval"
+  | "produce", [k] =>
+    match typeOfKey k with
+    | some t => pure ("ok " ++ t)
+    | none => pure "unknown"
+  | _, _ => none
+
+def parseHOp (t : String) : Option Knx.Dpt.HOp :=
+  match t.splitOn ":" with
+  | ["N", ty] => (shapeOf ty).map .produce
+  | ["U", i, h] => do
+    let i ← i.toNat?
+    let d ← Knx.Text.unhex h
+    pure (.unpack i d)
+  | _ => none
+
+def showCell : Knx.Dpt.Shape × Knx.Dpt.Cell → String
+  | (s, .zero) => "_".intercalate (Knx.Dpt.zeroVal s).toks
+  | (_, .val v) => "_".intercalate v.toks
+  | (_, .dirty) => "?"
+
+def runHist (ts : List String) : Option String := do
+  let ops ← ts.mapM parseHOp
+  let h := Knx.Dpt.Heap.run [] ops
+  pure (" ".intercalate (h.map showCell))
 
 def runGen (line : String) : String :=
   let r : Option String :=
@@ -38,6 +87,8 @@ def runGen (line : String) : String :=
     | ["pi", h] => do let t ← strOfHex h; pure (showAddr (Knx.Addr.parseIndividual t))
     | ["fg", n] => do let a ← b16 n; pure (hexOfStr (Knx.Addr.formatGroup a))
     | ["fi", n] => do let a ← b16 n; pure (hexOfStr (Knx.Addr.formatIndividual a))
+    | "hist" :: ts => runHist ts
+    | op :: args => runDpt op args
     | _ => none
   r.getD "bad-op"
 
